@@ -227,6 +227,13 @@ pub fn scenario(g: &mut G, ctx: &RunCtx) -> RunReport {
     let query = *g.pick(&["", "?x=1", "?x=1&y=a+b", "?"]);
     let fragment = *g.pick(&["", "", "#frag", "#a/b?c"]);
     let userinfo = *g.pick(&["", "", "user:secretpw@", "user@", ":secretpw@", "user:@"]);
+    // (no draw) a literal '@' further right in the URL - in the path or in the query - is not a credential
+    // delimiter: it belongs to the resource's name
+    let path = if path == "/a/b" && (query.len() + fragment.len()) % 2 == 1 { "/share/alice@corp.test/b" } else { path };
+    let query = if query == "?x=1" && fragment.is_empty() { "?to=bob@corp.test&x=1" } else { query };
+    if path.contains('@') || query.contains('@') {
+        g.probe("at-sign-in-path-or-query");
+    }
     let url_s = format!("{}://{}{}{}{}{}{}", if https { "https" } else { "http" }, userinfo, host, port.map(|p| format!(":{}", p)).unwrap_or_default(), path, query, fragment);
     let proxy_kind = g.below(3); // 0 none, 1 http proxy, 2 https proxy
     let proxy_cred = g.chance(1, 3);
@@ -417,7 +424,7 @@ pub fn scenario(g: &mut G, ctx: &RunCtx) -> RunReport {
                         if r.target.contains('#') {
                             return violation("absolute-target-carries-fragment", format!("request target {:?} sent to the proxy for {}", r.target, url_s));
                         }
-                        if r.target.contains("secretpw") || r.target.contains("user@") || r.target.contains("user:") || r.target.contains('@') {
+                        if r.target.contains("secretpw") || r.target.contains("user@") || r.target.contains("user:") || r.target.matches('@').count() > want_pq.matches('@').count() {
                             return violation("absolute-target-carries-credentials", format!("request target {:?} sent to the proxy for {}", r.target, url_s));
                         }
                         let t = r.target.trim_end_matches('?');
